@@ -115,7 +115,7 @@ Example C04B_nv_nonvacuous :
                                       (Transpile.mkSt (fun _ => None) (fun _ => None) [1] []) in
               stt = Transpile.Faulted /\ pc = 15%nat /\ List.length (Transpile.trace ms) = 10%nat) /\
              (let '(s, pc, o) := qrun qp (mkQ (init_state 2) [1] []) 50 in
-              o = Fault FIndex 15 /\ List.length (q_trace s) = 10%nat /\ um (q_st s) = [false; true]).
+              o = Fault FIndex 15 /\ List.length (q_trace s) = 10%nat /\ um (q_st s) = [None; Some 1] /\ used (q_st s) = [1]).
 Proof.
   eexists. split; [vm_compute; reflexivity|]. split.
   - apply (qsafe_by_run _ _ _ _ 50); [reflexivity|vm_compute; discriminate|vm_compute; reflexivity].
@@ -145,6 +145,7 @@ Theorem C04B_sdk_instr_partial : forall i qi ms s pc,
   Bridge_Sdk.e_instr i = Some qi -> Bridge_Sdk.grel ms s ->
   qstep qi s pc <> QStop (Unspec pc) ->
   qstep qi s pc <> QStop (Fault FUnitRange pc) ->
+  qstep qi s pc <> QStop (Fault FBook pc) ->
   Bridge_Sdk.gate_bridge ms s pc (Bridge_Sdk.qregs i) (Target.exec_instr i ms) (qstep qi s pc).
 Proof. exact Bridge_Sdk.sdk_instr_bridge_partial. Qed.
 
@@ -164,7 +165,7 @@ Example C04B_sdk_nonvacuous :
   Bridge_Sdk.grel (Target.m0 [1]) (mkQ (init_state 2) [1] []) /\
   (* qalloc then a gate: Target and SemQ both proceed *)
   (match Target.exec_instr (Target.IQ Target.QAlloc Q0) ms1, qstep (QC (IQalloc (BQ, 0))) s1 4 with
-   | Some _, QNext s' 5 => um (q_st s') = [true; false]
+   | Some _, QNext s' 5 => um (q_st s') = [Some 0; None]
    | _, _ => False end) /\
   (* a gate on a register holding an unallocated id: Target faults, SemQ emits the event (D-SDK-2) *)
   (match Target.exec_instr (Target.IQ (Target.QG SdkAst.GH) Q0) ms1, qstep (QGate 13 [] [(BQ, 0)]) s1 4 with
